@@ -10,6 +10,22 @@ def handle (args : List String) : Option String :=
   | "serve" :: rest => do
     let o ← handleServe rest
     pure s!"{encWritten o.written} {encStop o.result}"
+  | "elem" :: mode :: ns :: lb :: jm :: toks :: [prog] => do
+    let ns ← decNs ns
+    let lb ← XmppModel.Xml.unhexF (if lb == "-" then "" else lb)
+    let jm ← decJidMap jm
+    let toks ← XmppModel.Xml.decToks toks
+    let p ← decProg prog
+    let cfg : Cfg := { ns := ns, localBare := lb, jidCanon := jidOracle jm }
+    let eff ←
+      if mode == "d" then some p
+      else if mode == "r" || mode == "u" then
+        (match firstElem cfg toks with
+         | some (n, as, body) => some (muxEffective (mode == "r") cfg n as body p)
+         | none => some p)
+      else none
+    let o := serve cfg toks [eff]
+    pure s!"{encWritten o.written} {encStop o.result}"
   | _ => none
 
 end XmppModel.Driver.C07
